@@ -20,6 +20,7 @@ Case file (one case per line; both sides print one line per case):
        -> "L md5=<hex> sha1=<hex> sha256=<hex> sha512=<hex>"   (model only when the flag is 1: the extracted model is slow)
   G <map> <len> <keyhex> / H <algo> <map> <len> <chunks>   messages of about 2^32 bytes over sparse mappings (huge_harness.cpp, -O2,
                                            no sanitizer, own process); judged against siphash_ref.hpp / hashlib, not the model
+  V <algo> <map> <len> <mode>              the whole > 2^32-byte message as ONE tlx::string_view (constructor / process / helper)
   T <patternhex> <n> <chunks> <keyhex>     thread stage (threads_harness.cpp, ASan build and TSan build): alone, interleaved with
                                            the next case on one thread, and on 4-8 threads at once
   Z <n> <pre> <algos>                      n zero bytes from an anonymous mapping: <pre> one-byte calls, then ONE process() call
@@ -52,7 +53,10 @@ API_SURFACE = [
     {"entry": "X::digest_hex()", "called": True, "by": "digest_case(), long_case(), zero_case()"},
     {"entry": "X::digest_hex_uc()", "called": True, "by": "digest_case()"},
     {"entry": "X::kDigestLength", "called": True, "by": "size of the finalize() block and of digest()"},
-    {"entry": "X copy constructor / copy assignment / move constructor (implicit)", "called": True, "by": "feed(): a half-fed object is copied / assigned over another half-fed object / moved and feeding continues on the new object"},
+    {"entry": "X copy constructor / copy assignment / move constructor (implicit)", "called": True, "by": "feed(): a half-fed object is copied / assigned over another half-fed object / moved and feeding continues on the new object; after a copy construction BOTH objects receive the remaining chunks and must agree (twin)"},
+    {"entry": "input / output pointer alignment", "called": True, "by": "cut(): every chunk starts 0..7 bytes off the aligned start of its exact-size block (also on the compress-straight-from-input path); finalize() writes to a block misaligned by 0..7; siphash key and message at offsets 0..15; T/H stages pass pointers into one buffer at arbitrary offsets"},
+    {"entry": "use after finalize()/digest() (process again, digest twice)", "called": True, "by": "digest_case(): exercised for memory errors only, values ignored -- the headers do not define it and the property text speaks of process() calls followed by one output"},
+    {"entry": "one tlx::string_view of >= 2^32 bytes to X(view) / process(view) / x_hex(view)", "called": True, "by": "huge stage V cases (corpus witness of the repaired size_t -> uint32 truncation, plus one generated per run)"},
     {"entry": "x_hex(const void*, std::uint32_t)", "called": True, "by": "helper_all(), long_case()"},
     {"entry": "x_hex(tlx::string_view)", "called": True, "by": "helper_all(): tlx::string_view, std::string, std::string_view, const char*"},
     {"entry": "x_hex_uc(const void*, std::uint32_t)", "called": True, "by": "helper_all()"},
@@ -126,14 +130,19 @@ def _hchunks(n):
 
 hcases = []
 if not ck.replay:
+    # corpus lines of the huge stage (G / H / V) run first
+    hcorpus = [l.strip() for l in open(os.path.join(verif.VERIF, "corpus", "C14", "cases.txt")) if l[:2] in ("G ", "H ", "V ")]
     if ck.thorough():
         hcases = ["G z %d %s" % (G32 - 3, _hkey), "G z %d %s" % (G32, _hkey), "G z %d %s" % (G32 + 13, _hkey),
                   "G n %d %s" % (G32 - 3, _hkey), "G n %d %s" % (G32 + 13, _hkey)]
         hcases += ["H %s %s %d %s" % (a_, "n" if i_ % 2 == 0 else "z", G32 + 13 + i_, _hchunks(G32 + 13 + i_)) for i_, a_ in enumerate(ALGOS)]
+        hcases += ["V %s n %d %d" % (a_, G32 + 13 + i_, i_ % 3) for i_, a_ in enumerate(ALGOS)]
     else:
         a_ = ALGOS[(ck.seed + 1) % 4]
-        hcases = ["G n %d %s" % (G32 + 13, _hkey), "H %s n %d %s" % (a_, G32 + 13, _hchunks(G32 + 13))]
-elif replay_case[:2] in ("G ", "H "):
+        hcases = ["G n %d %s" % (G32 + 13, _hkey), "H %s n %d %s" % (a_, G32 + 13, _hchunks(G32 + 13)),
+                  "V %s n %d %d" % (ALGOS[(ck.seed + 2) % 4], G32 + 13, ck.seed % 3)]
+    hcases = hcorpus + [c for c in hcases if c not in hcorpus]
+elif replay_case[:2] in ("G ", "H ", "V "):
     hcases = [replay_case]
 hfile = os.path.join(ck.scratch, "hcases.txt")
 open(hfile, "w").write("".join(c + "\n" for c in hcases))
@@ -165,10 +174,10 @@ hexpect = {}
 def _hashlib_huge():
     for c in hcases:
         t = c.split()
-        if t[0] == "H":
+        if t[0] in ("H", "V"):
             h = hashlib.new(t[1])
             for piece in huge_content(t[2], int(t[3])): h.update(piece)
-            hexpect[c] = "H %s=%s" % (t[1], h.hexdigest())
+            hexpect[c] = "%s %s=%s" % (t[0], t[1], h.hexdigest())
 
 
 _hth = threading.Thread(target=_hashlib_huge); _hth.start()      # hashlib releases the GIL on large updates
@@ -388,20 +397,20 @@ def gen_cases():
         reps = 8 if thorough else 3
         for r in range(reps):
             key = defkey if r == 0 else rbytes(16, rng.choice([0, 1, 3, 3, 3, 3]))
-            am = r % 8 if thorough else rng.below(8)
-            ak = rng.below(8) if r % 2 else 0
+            am = (r % 8 if thorough else rng.below(8)) + 8 * rng.below(2)
+            ak = rng.below(16) if r % 2 else 0
             cases.append("P %s %s %d %d" % (key.hex(), hx(rbytes(n, rng.choice([0, 1, 3, 3, 3, 3]))), am, ak))
     return cases
 
 
-corpus = [l.strip() for l in open(os.path.join(verif.VERIF, "corpus", "C14", "cases.txt")) if l.strip() and not l.startswith("#")]
+corpus = [l.strip() for l in open(os.path.join(verif.VERIF, "corpus", "C14", "cases.txt")) if l.strip() and not l.startswith("#") and l[:2] not in ("G ", "H ", "V ")]
 if ck.replay:
     cases = [json.load(open(ck.replay))["case"]]
     ncorpus = 0
 else:
     cases = corpus + gen_cases()
     ncorpus = len(corpus)
-if ck.replay and (cases[0][:2] in ("Z ", "G ", "H ") or cases[0].startswith("TSTAGE")):
+if ck.replay and (cases[0][:2] in ("Z ", "G ", "H ", "V ") or cases[0].startswith("TSTAGE")):
     cases = []
 casefile = os.path.join(ck.scratch, "cases.txt")
 open(casefile, "w").write("".join(c + "\n" for c in cases))
@@ -409,7 +418,7 @@ open(casefile, "w").write("".join(c + "\n" for c in cases))
 # ------------------------------------------------------------------------------ run both sides
 found = False
 drv, dlog = ck.ocaml_driver("C14")
-stats = {"D": 0, "S": 0, "C": 0, "P": 0, "L": 0, "Z": 0, "G": 0, "H": 0, "T": 0}
+stats = {"D": 0, "S": 0, "C": 0, "P": 0, "L": 0, "Z": 0, "G": 0, "H": 0, "V": 0, "T": 0}
 hist = {}
 distinct = set()
 samples = []
@@ -565,7 +574,7 @@ if hcases:
         except subprocess.TimeoutExpired:
             hproc.kill(); ho = ""
         _hth.join()
-        hl = [l for l in ho.splitlines() if l[:2] in ("G ", "H ")]
+        hl = [l for l in ho.splitlines() if l[:2] in ("G ", "H ", "V ")]
         if hproc.returncode != 0 or len(hl) != len(hcases):
             ck.violation("huge-message harness failed (rc=%s): %s" % (hproc.returncode, ho[-300:]), {"correspondence": "harness/C14/huge_harness.cpp", "log_tail": ho[-2000:]}, no_input=True)
         else:
@@ -578,13 +587,17 @@ if hcases:
                         found = True
                         ck.violation("SipHash of a message of %s bytes (>= 2^32 - 3) differs from SipHash-2-4 (reference validated against the extracted Coq spec on %d cases of this run): %s" % (c.split()[2], ref_validated, l),
                                      {"case": c, "impl": l, "replay_cmd": "bin/check C14 --replay <this file>"})
+                elif c[0] == "V" and l != hexpect.get(c):
+                    found = True
+                    ck.violation("digest of ONE tlx::string_view of %s bytes (> 2^32) differs from hashlib (size_t -> uint32 truncation in process(string_view)?): impl=%s want=%s" % (c.split()[3], l, hexpect.get(c)),
+                                 {"case": c, "impl": l, "standard": hexpect.get(c), "replay_cmd": "bin/check C14 --replay <this file>"})
                 else:
                     if l != hexpect.get(c):
                         found = True
                         ck.violation("digest of a message of %s bytes (> 2^32) streamed in chunks differs from hashlib: impl=%s want=%s" % (c.split()[3], l, hexpect.get(c)),
                                      {"case": c, "impl": l, "standard": hexpect.get(c), "replay_cmd": "bin/check C14 --replay <this file>"})
             samples.append({"case": hcases[0], "result": hl[0]})
-            if ref_validated == 0 and not ck.replay and any(c[0] == "G" for c in hcases):
+            if ref_validated == 0 and not found and not ck.replay and any(c[0] == "G" for c in hcases):
                 ck.violation("the SipHash reference of the huge stage was not validated against the model in this run", {"correspondence": "siphash_ref.hpp vs extracted sip_spec"}, no_input=True)
 
 # ------------------------------------------------------------------------------ concurrency / object-independence stage (T)
